@@ -12,13 +12,13 @@ pub fn serialize_resp_frame<W: Write>(frame: &RespFrame, writer: &mut W) -> Resu
     match frame {
         RespFrame::SimpleString(bytes) => {
             writer.write_all(b"+")?;
-            writer.write_all(bytes)?;
+            writer.write_all(&sanitize_line(bytes))?;
             writer.write_all(b"\r\n")?;
         }
         
         RespFrame::Error(bytes) => {
             writer.write_all(b"-")?;
-            writer.write_all(bytes)?;
+            writer.write_all(&sanitize_line(bytes))?;
             writer.write_all(b"\r\n")?;
         }
         
@@ -106,6 +106,16 @@ pub fn serialize_resp_frame<W: Write>(frame: &RespFrame, writer: &mut W) -> Resu
     }
     
     Ok(())
+}
+
+/// Payload of a simple string or error as it may appear on the wire: these frames end at the
+/// first CRLF, so CR and LF inside the payload (e.g. echoed request bytes) are replaced by spaces
+fn sanitize_line(bytes: &[u8]) -> Vec<u8> {
+    let mut clean = Vec::with_capacity(bytes.len());
+    for b in bytes {
+        clean.push(if *b == b'\r' || *b == b'\n' { b' ' } else { *b });
+    }
+    clean
 }
 
 /// Serialize a RESP frame to a byte vector
